@@ -575,7 +575,7 @@ class _Conv(object):
             scope = self.declscope.get(rd["id"])
             if scope is None:
                 scope = "func" if rd.get("kind") == "FunctionDecl" else "global"
-            return E("var", name=rd.get("name"), decl=rd["id"], ty=rd.get("type", {}).get("qualType"),
+            return E("var", name=rd.get("name"), decl=rd["id"], ty=_qt(rd),
                      scope=scope, line=line, off=off)
         if k == "IntegerLiteral":
             return E("int", val=int(n["value"]), ty=_qt(n), line=line, off=off)
